@@ -10,6 +10,7 @@ import (
 	"time"
 
 	"bwverif/cv"
+	"bwverif/fault"
 	"bwverif/gen"
 	"bwverif/lin"
 	"bwverif/ref"
@@ -491,6 +492,50 @@ func c19Stress(r *rt.Rec, rng *rand.Rand, n int) {
 	}
 }
 
+// c19FaultThenRead: a lookup through the wrapper fails after delivering part of
+// its elements (the wrapped driver returns an error); the same lookup repeated
+// afterwards, with the driver healthy again, must give the wrapped store's
+// answer, not what was seen before the failure.
+func c19FaultThenRead(r *rt.Rec, rng *rand.Rand, n int) {
+	ctx := context.Background()
+	for i := 0; i < n; i++ {
+		univ := gen.Universe(rng, 10)
+		inner := memory.NewStore()
+		ig, _ := inner.NewGraph(ctx, "?g")
+		ig.AddTriples(ctx, univ)
+		qs := allQueries(univ)
+		q := qs[rng.Intn(len(qs))]
+		full, _, _ := ref.Call(ctx, ig, q, storage.DefaultLookup)
+		if len(full) < 2 {
+			continue
+		}
+		after := rng.Intn(len(full))
+		// call 1 is Store.Graph, call 2 the lookup
+		fs := fault.New(inner, fault.Plan{K: 2, After: after})
+		wrapped := memoization.New(fs)
+		wg, err := wrapped.Graph(ctx, "?g")
+		if err != nil {
+			continue
+		}
+		r.Note(fmt.Sprintf("fault-then-read %s failing after %d of %d elements", q, after, len(full)))
+		_, err1, _ := ref.Call(ctx, wg, q, storage.DefaultLookup)
+		got, err2, _ := ref.Call(ctx, wg, q, storage.DefaultLookup)
+		r.Eval(1)
+		if fs.Fired() == nil {
+			r.Inconclusive("the planned driver failure did not fire")
+			continue
+		}
+		if err1 == nil {
+			r.Violation("failed-read-no-error/"+q.Method, "the wrapped lookup failed but the memoizer returned no error", q.String())
+		}
+		if err2 != nil || strings.Join(got, "\x1c") != strings.Join(full, "\x1c") {
+			r.Violation("partial-result-memoized/"+q.Method, fmt.Sprintf("after a lookup that failed part way (%d of %d elements) the same lookup returns %d elements (err=%v); the wrapped store returns %d", after, len(full), len(got), err2, len(full)),
+				map[string]interface{}{"lookup": q.String(), "universe": tripleStrings(univ)})
+		}
+		r.Nontrivial(fmt.Sprintf("%v|%s|%d", tripleStrings(univ), q, after))
+	}
+}
+
 func init() {
 	register(&rt.Check{
 		ID:    "C19",
@@ -511,6 +556,7 @@ func init() {
 					// add / remove batches, Exist and full listing after every step
 					c01Histories(r, gen.Rng(seed, "c19h", i), n/32+1, 40, func(s storage.Store) storage.Store { return memoization.New(s) })
 				}},
+				{Name: "fault-then-read", N: 8, Run: func(i int, r *rt.Rec) { c19FaultThenRead(r, gen.Rng(seed, "c19f", i), n/16+4) }},
 				{Name: "interleavings", N: 6, Exhaustive: tier == "thorough", Run: func(i int, r *rt.Rec) { c19Interleavings(r, i, wrr, gen.Rng(seed, "c19b", i)) }},
 				{Name: "stress-race", N: 16, Race: true, Run: func(i int, r *rt.Rec) { c19Stress(r, gen.Rng(seed, "c19c", i), st/16) }},
 			}
